@@ -116,6 +116,9 @@ def main():
         lines = [c.line() for c in cases]
         impl = core.run_impl(lines)
         model = core.run_model(lines)
+        # the same cases in a process where no tracing subscriber is installed (every log callsite disabled)
+        untraced = core.run_impl_untraced(lines) if not a.replay or True else {}
+        log_dep = [c for c in cases if c.id in untraced and untraced[c.id] != impl.get(c.id)]
         proj = getattr(mod, "project", lambda c, r: r)
         disagree = []
         hist = collections.Counter()
@@ -166,6 +169,7 @@ def main():
             "histogram": dict(sorted(hist.items())),
             "corpus_cases": sum(1 for c in cases if c.origin.startswith("corpus")),
             "disagreements": len(disagree),
+            "rerun_without_tracing_subscriber": {"cases": len(untraced), "different_answers": len(log_dep)},
             "oracle_evaluations_on_impl": len(olines),
             "oracle_failures_on_impl": len(oracle_fail),
             "oracle_answers": dict(collections.Counter(v for v in ores.values())),
@@ -205,6 +209,13 @@ def main():
             violations.append(("oracle-bug", {"property": prop, "kind": "no-failing-input-found",
                                               "relation": "Cnn.check x (Model x) = true (the check's own oracle is inconsistent with its model)",
                                               "case": cases[int(oracle_rejects_model[0])].line(), "detail": notes[-1]}))
+        if log_dep:
+            c = min(log_dep, key=lambda c: len(c.args))
+            violations.append(("failing-input", {
+                "property": prop, "kind": "failing-input", "case": c.line(), "cases": [x.line() for x in log_dep[:20]],
+                "relation": "the implementation answers the same whether or not a tracing subscriber is installed",
+                "with_subscriber_enabling_every_callsite": impl.get(c.id), "without_any_subscriber": untraced.get(c.id),
+                "model": model.get(c.id), "seed": seed, "tier": tier, "failing_inputs": len(log_dep)}))
         spec = getattr(mod, "SPEC_IS_ORACLE", False)
         spec_dis = [c for c in disagree if (spec(c) if callable(spec) else spec)]
         if spec_dis and not any(k == "failing-input" for k, _ in violations):
